@@ -65,6 +65,9 @@ def run(ck, prog, tier, load):
     if not (some_edges and handoff and pushes):
         return
 
+    # REQ = the incoming-request parameter of AppInitService::call, identified by its type
+    REQ = set(args_of_type(call, r"actix_http::requests::request::Request(<.*>)?$"))
+    ck.anchor("C11-a", len(REQ), 1, "parameter of type actix_http::Request in AppInitService::call")
     for f in fields:
         if f == "app_state":
             ck.ob("C11-a.exempt", f, True, None, None, "app_state is the per-worker configuration handle (not request data)", nontrivial=False)
@@ -90,14 +93,14 @@ def run(ck, prog, tier, load):
             for bb, (kind, e) in rc.items():
                 if kind == "assign":
                     roots = e_roots(e)
-                    from_req = any(r[0] == "arg" and r[2] == "req" for r in roots) or (e[0] == "const")
+                    from_req = any(r[0] == "arg" and r[1] in REQ for r in roots) or (e[0] == "const")
                     ck.ob("C11-a.provenance", f, from_req, call, bb, "new value of %s derives from the incoming request: %s" % (f, short(e)))
                 elif kind == "update":
-                    from_req = any(r[0] == "arg" and r[2] == "req" for a in e for r in e_roots(a))
+                    from_req = any(r[0] == "arg" and r[1] in REQ for a in e for r in e_roots(a))
                     ck.ob("C11-a.provenance", f, from_req, call, bb, "%s.update(..) takes the incoming request's URI" % f)
     # sibling agreement: whatever the fresh-object branch takes from the incoming request, the pooled branch installs too
     def sources(e):
-        return {c[1] for c in e_calls(e, r"^actix_http::requests::request::Request::") if any(r[0] == "arg" and r[2] == "req" for r in e_roots(c))}
+        return {c[1] for c in e_calls(e, r"^actix_http::requests::request::Request::") if any(r[0] == "arg" and r[1] in REQ for r in e_roots(c))}
 
     fresh = [t for bb, t in call.calls(r"^actix_web::request::HttpRequest::new$")]
     ck.anchor("C11-a", len(fresh), 1, "HttpRequest::new in AppInitService::call")
@@ -189,10 +192,24 @@ def run(ck, prog, tier, load):
         if wc and clear.must_pass([0], clear.returns(), wc)[0]:
             ck.ob("C11-e.head-field", f, True, clear, wc[0], "RequestHead.%s reset by Head::clear" % f)
             continue
-        w1 = writes(h1dec) + [x for b in h1disp for x in writes(b)]
-        w2 = [x for b in h2disp for x in writes(b)]
-        ck.ob("C11-e.head-field", f, bool(w1) and bool(w2), h1dec, w1[0] if w1 else None,
-              "RequestHead.%s is not reset by clear(); written by the h1 request path: %s, by the h2 request path: %s" % (f, bool(w1), bool(w2)))
+        # not reset by clear(): then every request path must overwrite it on EVERY path to the hand-off, for both protocols
+        def covered(b, handoffs):
+            w = writes(b)
+            return bool(w) and bool(handoffs) and b.must_pass([0], handoffs, w)[0], w
+        h1_ok, w1 = covered(h1dec, [bb for bb, e in h1dec.ret_exprs() if agg_chain(e)[0][:2] == ["core::result::Result::Ok", "core::option::Option::Some"]])
+        where1 = "Request::decode"
+        if not w1:
+            for b in h1disp:
+                ho = [bb for bb, t in b.calls(r"InnerDispatcher::handle_request$|VecDeque.*::push_back$")]
+                ho = [bb for bb in ho if not any(is_agg(x, r"DispatcherMessage::Error$") for x in walk(b.op_expr(b.term(bb)["args"][-1], 4)))]
+                h1_ok, w1 = covered(b, ho)
+                where1 = "poll_request"
+        h2_ok, w2 = False, []
+        for b in h2disp:
+            ho = [bb for bb, t in b.calls(r"Service.*::call$") if not rx(r"core::ops::function").search(cname(t))]
+            h2_ok, w2 = covered(b, ho)
+        ck.ob("C11-e.head-field", f, h1_ok and h2_ok, h1dec, None,
+              "RequestHead.%s is not reset by clear(); it is overwritten on every path to the hand-off by the h1 request path (%s: %s) and by the h2 request path (%s) — a conditional write leaves the previous request's value in a recycled head" % (f, where1, h1_ok, h2_ok))
 
 
 def last_field_of_stmt(s):
